@@ -332,6 +332,8 @@ def families(tier):
                 for a in range(NSLOTS):
                     if q and sn != "auth" and (a + 2 * b) % 9:
                         continue
+                    if not q and sn not in ("auth", "escapes") and (a + b) % 3:
+                        continue
                     fams.append(Family("step/%s/%s/B=%d/A-slot=%d" % (sn, route, b, a), h_step, dict(skeleton=sk, route=route, b_index=b, a_slot=a)))
     qmods = ("with_query", "update_query", "extend_query", "without_query_params")
     pmods = ("with_path", "with_name", "with_suffix", "div", "joinpath", "join")
@@ -342,7 +344,7 @@ def families(tier):
                 continue
             if q and sn == "path" and m not in pmods:
                 continue
-            for b in ((-1, (mi + si) % nb)[:2 if sn == "auth" else 1] if q else [-1] + list(range(nb))):
+            for b in ((-1, (mi + si) % nb)[:2 if sn == "auth" else 1] if q else [-1, 0, (mi + si) % nb, (mi + si + 4) % nb]):
                 fams.append(Family("step/%s/modifier=%s/B=%d" % (sn, m, b), h_step, dict(skeleton=sk, route="ctor", b_index=b, a_slot=0, mod=m)))
     for w in ("make_netloc", "_encode_host", "split_netloc", "from_parts", "encode_url", "pre_encoded_url"):
         fams.append(Family("lru/%s" % w, h_lru, dict(which=w)))
